@@ -21,6 +21,9 @@ def run(ctx):
     rep.floor('integer powers of ten checked for overflow', npf, 5)
     rep.floor('power-of-ten helpers', nph, 3)
     nn = normalform.check(rep, F)
+    from rules import countdigits
+    ncd = countdigits.check(rep, F)
+    rep.floor('digit-count obligations', ncd, 2)
     rep.floor('normalized() table rows', nn, 2)
     from rules import limbmod
     _Fl = F
